@@ -130,6 +130,10 @@ def check_c06(tier, seed):
         for mb in hgens.CONFIGS:
             hs.append(dict(base, id=f"same_v{ver}_mb{mb}", ver=ver, maxbuf=mb))
     run_batch(out, "random", "A", hs, spec="Trace_Handle", driver="hdrive")
+    # truncate-then-extend inside the same final (mini) sector: a byte vector pads with zeros
+    run_batch(out, "setlen-within-unit", "A", hgens.setlen_within_unit_histories(tier), spec="Trace_Handle", driver="hdrive")
+    # beyond the listed properties (informational, tag XDROP): the handle outlives the CompoundFile
+    run_batch(out, "file-dropped", "A", hgens.dropped_file_histories(tier, seed), spec="Trace_Handle", driver="hdrive")
     return finish(out, "model_checking",
                   "transition coverage of the MC_Handle graph (BFS depth bound) scaled by 512 bytes/unit and replayed under max_buffer_size in {1,1024,1536,2560,4096,default} x V3/V4; "
                   "seeded random call sequences with sizes straddling 64/1024/4096/sector/buffer capacity and i64/u64 extreme seeks", H_ASSUME)
